@@ -18,7 +18,8 @@ CLAIMED = {
             "data, unknown enumerators, bad address family, version != 1, non-UTF-8 identities, misaddressed requests, garbage) injected "
             "into a live node in every state in which bytes can arrive, with seeded segmentation and schedule; oracle: workers survive "
             "or the connection closes cleanly, no lock stranded, API probes return, no thread computes forever; plus the decoder "
-            "sub-check (DiameterMessage.load under the step meter: returns or raises a library error within a length-only bound).",
+            "sub-check (DiameterMessage.load under the step meter: returns or raises a library error within a length-only bound), "
+            "a dictionary-wide sweep (every AVP class x adversarial payload; every Grouped class legally nested in itself), flag-bit corruption.",
             TRUST + "The decoder sub-check is input sampling on the same corpus (labelled as such in the evidence); closing the connection is an accepted reaction to garbage.",
             "DESIGN.md §5 C03"),
     "C06": ("Seeded event histories over the RFC 6733 alphabet for both roles and 0..2 applications, up to 3 starts of the same object; "
@@ -30,43 +31,48 @@ CLAIMED = {
     "C07": ("Seeded histories of base requests (CER, coalesced DWR bursts, CER in Open, DPR) with boundary / repeated / swapped / random "
             "identifier pairs across up to 3 connections of the same Diameter object; oracle over the recorded global history: every "
             "CEA/DWA/DPA on the wire matches exactly one earlier request, carries Result-Code and local origin, R clear, in request order, "
-            "and was emitted before any later inbound message took effect.",
+            "and was emitted before any later inbound message took effect; slow pieces (seconds apart), embedded ghost requests, a bystander node.",
             TRUST + "'Emitted' means handed to the transport (written or in its send buffers); unanswered requests are not violations.",
             "DESIGN.md §5 C07"),
     "C13": ("Seeded route tables (1..3 applications x 1..4 codes, shared codes) registered with the real decorator, <= 16 concurrent requests "
             "with injected handler outcomes (answer, None, wrong type, exceptions, slow), per-run barrier sizes and timers; oracle: exactly "
             "the registered handler ran once, exactly one answer per request, fallback answer is UNABLE_TO_COMPLY with ids, Session-Id, "
-            "local origin and requester as destination.",
+            "local origin and requester as destination; a second Bromelia object with foreign handlers for the same pairs.",
             TRUST + "World B1: the connection object under Worker is a stub; multiprocessing.Manager is replaced by in-process primitives.",
             "DESIGN.md §5 C13"),
     "C04": ("Seeded search over message sequences x segmentations (every byte, inside headers, coalesced, swept cut positions) "
             "x interleavings of transport reader, receive worker, state machine and consumer; oracle compares the sequence "
-            "returned by get_message() with what the reference encoder produced and the DWAs on the wire with the DWRs sent.",
+            "returned by get_message() with what the reference encoder produced and the DWAs on the wire with the DWRs sent; "
+            "pieces seconds apart, wall-clock steps, a bystander node of the same process.",
             TRUST + "Simulated OS = Linux/TCP byte stream semantics (no loss/dup/reorder inside a stream); single consumer.",
             "DESIGN.md §5 C04"),
     "C05": ("Seeded search over 1..4 submitter threads x partial-write patterns (down to one byte) x withheld writability x "
             "concurrent inbound traffic x send-buffer limits; oracle parses everything SimSocket.send accepted with the reference "
-            "decoder and compares with dump() at submission (none lost, duplicated, torn, reordered per submitter).",
+            "decoder and compares with dump() at submission (none lost, duplicated, torn, reordered per submitter); "
+            "stalled-thread faults, wall-clock steps, caller-owned list reuse, a bystander node of the same process.",
             TRUST + "No message larger than the per-run send-buffer limit is submitted; send() never raises EAGAIN after reported writability.",
             "DESIGN.md §5 C05"),
     "C08": ("Every termination cause (local close, peer DPR, EOF, reset, refused / never-completing connect, non-CEA, DPR crossing "
             "a local stop) x every point of the connection life x seeded delay and schedule; oracle: Closed, sockets closed and "
-            "unregistered, all library threads exited, blocked get_message() returned, no lock held, restart reaches Open.",
+            "unregistered, all library threads exited, blocked get_message() returned, no lock held, restart reaches Open; "
+            "stalled-thread faults, wall-clock steps (also inside the DPR/DPA linger), lingering peer, bystander node.",
             TRUST + "D is computed from the run's polling knobs; Linux connect semantics verified against the real kernel (Windows personality as a variation).",
             "DESIGN.md §5 C08"),
     "C14": ("Seeded search over 1..6 concurrent waiting callers x answer arrival orders/delays (zero delay, duplicates, never, "
             "unsolicited) x schedules with stalled-thread faults anchored inside send_message; oracle: each caller gets the answer "
-            "generated for its request, once, and a caller whose answer reached the application layer returns within D.",
+            "generated for its request, once, and a caller whose answer reached the application layer returns within D; "
+            "slow peers (answers after 31-400 s), wall-clock steps, stalls anchored inside the dispatch path.",
             TRUST + "World B1: the connection object under Worker is a stub; multiprocessing.Manager is replaced by in-process primitives.",
             "DESIGN.md §5 C14"),
     "C15": ("Seeded search over creation histories x adversarial os.urandom outputs x thread interleavings (pre-emption at sync ops, "
-            "source lines and bytecodes inside the allocation methods); every issued identifier is compared with all earlier ones.",
+            "source lines and bytecodes inside the allocation methods), histories up to 20 000 requests and process lives of minutes to weeks "
+            "with wall-clock steps; every issued identifier is compared with all earlier ones.",
             TRUST + "os.urandom is replaced by a simulator-owned source that always eventually yields a fresh value.",
             "DESIGN.md §5 C15"),
     "C16": ("Seeded search over generation histories (AVPs, typed messages, bulk re-origin with identity switches, bytes) interleaved "
-            "with steps of the simulated wall clock (frozen, ms, 1 s, days); every generated Session-Id is compared with all earlier "
+            "with steps of the simulated wall clock (frozen, ms, 1 s, days, backwards), counter fast-forward to 2^32, shared update dicts; every generated Session-Id is compared with all earlier "
             "ones and checked for form and identity prefix.",
-            TRUST + "The wall clock is monotone non-decreasing; generation is single-threaded (the quantifier is over histories and clock rates).",
+            TRUST + "Generation is single-threaded (the quantifier is over histories and clock rates); the wall clock may also be stepped back.",
             "DESIGN.md §5 C16"),
 }
 
